@@ -1,0 +1,66 @@
+//go:build verif
+
+package fasthttp
+
+import "errors"
+
+// Thin pass-through wrappers for the C31 verification harness (date and IP codecs).
+// Compiled only with -tags verif; they add no behaviour.
+
+// VerifParseRFC1123DateGMT exposes the fast HTTP date parser: Unix second, zone offset and ok.
+func VerifParseRFC1123DateGMT(b []byte) (unix int64, nsec int, offset int, ok bool) {
+	t, ok := parseRFC1123DateGMT(b)
+	if !ok {
+		return 0, 0, 0, false
+	}
+	_, off := t.Zone()
+	return t.Unix(), t.Nanosecond(), off, true
+}
+
+// VerifIPErrClass maps the IPv4 parser errors to class names.
+func VerifIPErrClass(err error) string {
+	switch {
+	case err == nil:
+		return "nil"
+	case errors.Is(err, errEmptyIPStr):
+		return "emptyStr"
+	case errors.Is(err, errEmptyInt):
+		return "empty"
+	case errors.Is(err, errUnexpectedFirstChar):
+		return "firstChar"
+	case errors.Is(err, errUnexpectedTrailingChar):
+		return "trailing"
+	case errors.Is(err, errIPv4PartTooLarge):
+		return "tooLarge"
+	}
+	return "other"
+}
+
+// VerifParseIPv4Octet exposes parseIPv4Octet.
+func VerifParseIPv4Octet(b []byte) (byte, int, string) {
+	o, p, err := parseIPv4Octet(b)
+	return o, p, VerifIPErrClass(err)
+}
+
+// VerifValidateIPv6Literal exposes validateIPv6Literal as an error class.
+func VerifValidateIPv6Literal(host []byte) string {
+	switch validateIPv6Literal(host) {
+	case nil:
+		return "nil"
+	case errInvalidIPv6Host:
+		return "host"
+	case errInvalidIPv6Zone:
+		return "zone"
+	case errInvalidIPv6Address:
+		return "address"
+	}
+	return "other"
+}
+
+// VerifParseIPv6Hextets exposes parseIPv6Hextets.
+func VerifParseIPv6Hextets(s []byte, allowTrailingColon bool) (int, bool, bool) {
+	return parseIPv6Hextets(s, allowTrailingColon)
+}
+
+// VerifValidIPv4 exposes validIPv4.
+func VerifValidIPv4(s []byte) bool { return validIPv4(s) }
